@@ -426,6 +426,25 @@ def _expand(u, path, canary):
         elif s.startswith("//@include"):
             inc = s.split()[1]
             _expand(u, os.path.join(VERIF, inc), canary)
+        elif s.startswith("//@frozen"):
+            # a prelude stub stands for this repository item, which is NOT verified: its text was reviewed
+            # once; if it changes the stub has to be re-reviewed (undecided, never an alarm)
+            m = re.match(r"//@frozen\s+(\S+)\s*::\s*(.+)$", s)
+            if not m:
+                raise ValueError("%s:%d bad //@frozen" % (rel, ln))
+            file, selector = m.group(1), m.group(2).strip()
+            r = run_vx({"file": os.path.join(REPO, file), "selector": selector, "rules": [], "substs": []})
+            class _S:  # minimal spec-like object for check_frozen
+                pass
+            sp = _S()
+            sp.key = "item:%s::%s" % (file, selector)
+            sp.selector = selector
+            sp.file = file
+            check_frozen(sp, r["orig"])
+            u.functions.append({"key": sp.key, "mode": "frozen", "file": file, "selector": selector, "name": selector,
+                                "repo_line": r["start_line"], "sha256": hashlib.sha256(r["orig"].encode()).hexdigest(),
+                                "fired": {}, "dropped_attrs": [], "gen_lines": [0, 0], "orig": r["orig"], "rewritten": "",
+                                "n_requires": 0, "n_ensures": 0, "n_loop_clauses": 0})
         elif s.startswith("//@use-missing"):
             # stubs (with their contracts) for every listed wrapper this unit has not declared itself, so
             # that code which starts to call one of them is checked against its precondition instead of
